@@ -42,6 +42,8 @@ impl Tier {
 pub struct Ctx {
     pub labels: Vec<&'static str>,
     pub nontrivial: bool,
+    /// number of executions performed inside this case (exhaustive inner sweeps); 0 counts as 1
+    pub sub_evals: u64,
     /// strict = replay mode: known findings are reported as failures too
     pub strict: bool,
 }
@@ -303,7 +305,7 @@ fn eval<P: Property>(
         }
     };
     if counting {
-        stats.evaluations += 1;
+        stats.evaluations += ctx.sub_evals.max(1);
         for l in &ctx.labels {
             *stats.classes.entry((*l).to_string()).or_default() += 1;
         }
